@@ -100,6 +100,30 @@ add("C15", "Model-based testing: Hypothesis-generated (episode length, return) s
     "runs not generated.",
     "DESIGN.md §5 C15")
 
+add("C07", "Hypothesis-generated reward/value/termination sequences and rollouts vs float64 / exact-rational recurrences; metamorphic non-interference (perturb data that must not matter, compare bitwise); differential against a per-environment reference update",
+    "compute_gae, discounted_n_step_return and discounted_reward_to_go are compared with float64 / exact-rational closed forms; for "
+    "compute_gae, prepare_a2c_batch, the PPO rollout arrays, update_ppo (advantages read back through a probe actor; real nets vs a "
+    "per-environment reference update), mrq_loss and model_based_encoder_loss the outputs for (env, t) are recomputed after replacing other "
+    "environments' data, earlier steps and post-terminal steps by arbitrary finite values and compared bitwise.",
+    "Truncation boundaries are not treated as cuts (the statement speaks of termination); only the bootstrap observation of a truncated "
+    "PPO step is demanded. Loud rejections (A2C with one environment raises) are not violations.",
+    "DESIGN.md §5 C07")
+add("C16", "Hypothesis-generated ask/tell histories (ties, +-inf, NaN fitness), architectures and CEM inputs vs invariant oracles with the optimiser's own float32 rounding; tie permutations enumerated",
+    "CMA-ES: recombination weights, incumbent bookkeeping after every tell, mean = weighted best-mu candidates for some ranking consistent "
+    "with the fitness order, step-size growth bound, covariance symmetry and positive diagonal; flat_params/set_params round trip over 21 "
+    "architectures; CEM: candidates and means within bounds (4 ulp), update from exactly the n_elite best, also inside optimize_cem and "
+    "train_cmaes on a scripted environment.",
+    "Covariance positive-diagonal clause for active CMA-ES only exercised with sampler-produced candidates; NaN fitness required to rank last.",
+    "DESIGN.md §5 C16, §11")
+add("C17", "Hypothesis-generated ensembles / inputs / data-set sizes vs float64 references (member slices of the joint pass, law of total variance, closed-form NLL, numpy plan evaluation), wrapped train_epoch for bootstrap multisets, gymnasium Pendulum-v1 as differential oracle",
+    "Member i's base_predict / base_distribution for vector and batch inputs against slice i of the joint forward pass (n_outputs >= 2), "
+    "log-variance bounds with raw values +-50, aggregate vs the law of total variance, per-epoch per-member index multisets within the "
+    "member's bootstrap sample, gaussian_nll closed form, evaluate_plans vs a numpy loop, ts_inf through the standardised noise, "
+    "pendulum_reward vs the environment's own step reward.",
+    "A single vector's joint pass is taken as __call__(x[None])[:, 0] (__call__ rejects 1-D input); gaussian_nll read as the mean over all "
+    "N*d elements.",
+    "DESIGN.md §5 C17")
+
 NOT_APPLICABLE = {}
 
 
